@@ -27,6 +27,9 @@ def compare_supplied(values: Any, got: Any) -> bool:
         if not isinstance(got, dict):
             return False
         return all(k in got and compare_supplied(v, got[k]) for k, v in values.items())
+    if isinstance(values, tuple) and len(values) == 2 and isinstance(values[0], int) and not isinstance(values[0], bool):
+        # MUX value given by key: the decoder reports the case name; only the content is compared here
+        return isinstance(got, (list, tuple)) and len(got) == 2 and compare_supplied(values[1], got[1])
     if isinstance(values, (list, tuple)):
         if not isinstance(got, (list, tuple)) or len(values) != len(got):
             return False
@@ -88,7 +91,8 @@ def check_program(L: harness.Loaded, prog: Dict[str, Any], part: Part) -> None:
                 part.violation(f"C01/{tag}/service-encodes-differently", {"program": prog_case(prog), "values": jval(values)},
                                f"encode_request {pdu2.hex()} vs Request.encode {pdu.hex()}")
             # DiagLayer.decode of the service's own request (needs a constant prefix for the dispatch)
-            if exc is None and prog["params"] and prog["params"][0]["t"] == "CODED-CONST" and prog["tags"][0] == "prog":
+            if exc is None and prog["params"] and prog["params"][0]["t"] == "CODED-CONST" and prog["tags"][0] == "prog" and \
+                    prog["params"][0].get("byte") in (None, 0):
                 try:
                     _, ref_out, e = L.interp.encode(prog["pid"], values)
                 except (refodx.Reject, refodx.DontCare):
